@@ -48,6 +48,8 @@ class Mon(X.Monitor):
     '''ghost: just[tag] = targets with an unconsumed cause to run; obl = units due because of a report;
     self_lost = due units withdrawn by the failure of their OWN (older) execution; purged = see X.purged_in_flight'''
 
+    TREE_CLAUSE = 'C02.complete'
+
     def reset(self):
         u = self.u
         self.just = {}
@@ -248,6 +250,9 @@ def dataflow_case(u, seed_str, n_events, result):
     rng = random.Random(seed_str)
     special = {'special': 'dataflow', 'seed_str': seed_str, 'events': n_events}
     sim = X.Sim(u)
+    if sim.tree_defects:      # reported by the event exploration of the same universe (consumer-not-in-task-tree)
+        sim.close()
+        return None
     mon = Mon(u)
     mon.reset()
     fl = Flow(u)
